@@ -294,3 +294,85 @@ def cache_key_check(repo, tier, seed):
                           {'function': g.ident, 'source_sha256': g.sha, 'paths': 1, 'obligations': 0, 'discharged': 0,
                            'outcomes': {}, 'seconds': 0.0, 'inlined_callees': []}],
             'coverage': {'obligations': [o[0] for o in obligations], 'codec_names': codecs}}
+
+
+# ------------------------------------------------------------------------------------------------------------
+COMMENTS_DRIVER = r'''
+import itertools, json, sys
+sys.path.insert(0, sys.argv[1]); sys.path.insert(0, sys.argv[2])
+from asn1tools.parser import ignore_comments
+from spec.x680 import blank_comments
+maxlen = int(sys.argv[3]); alphabet = sys.argv[4]
+tot = 0; nontrivial = 0; bad = []
+for L in range(0, maxlen + 1):
+    for t in itertools.product(alphabet, repeat=L):
+        s = ''.join(t); tot += 1
+        try:
+            r = ignore_comments(s)
+        except Exception as e:
+            r = None if type(e).__name__ == 'ParseSyntaxException' else 'EXC:' + type(e).__name__
+        e = blank_comments(s)
+        if e != s:
+            nontrivial += 1
+        if r != e and len(bad) < 5:
+            bad.append({'input': s, 'observed': r, 'expected': e})
+print(json.dumps({'total': tot, 'nontrivial': nontrivial, 'bad': bad}))
+'''
+
+
+def comments_check(repo, tier, seed):
+    """C14 (reduced, BOUNDED): the comment-blanking pre-pass equals the reference automaton spec/x680.py on every
+    string up to a length bound over the alphabet of comment-relevant characters (exhaustive below the bound; never
+    counted as proved), plus data-flow obligations on parse_string: the text reaches ignore_comments unmodified and its
+    result reaches the grammar unmodified (so the reported line is the line of the original text)."""
+    import ast, subprocess, json
+    from .program import Program
+    from .check import NATIVE_PY, VERIF_ROOT
+    maxlen = 7 if tier == 'quick' else 9
+    alphabet = '-/*\n"a'
+    p = subprocess.run([NATIVE_PY, '-c', COMMENTS_DRIVER, repo, VERIF_ROOT, str(maxlen), alphabet],
+                       capture_output=True, text=True, timeout=3000)
+    viol, undec = [], []
+    res = {'total': 0, 'nontrivial': 0, 'bad': []}
+    if p.returncode != 0:
+        undec.append({'function': 'asn1tools/parser.py::ignore_comments', 'kind': 'crash', 'reason': p.stderr[-500:]})
+    else:
+        res = json.loads(p.stdout)
+        for b in res['bad']:
+            viol.append({'obligation': 'asn1tools/parser.py::ignore_comments/equals-reference(bounded)',
+                         'function': 'asn1tools/parser.py::ignore_comments', 'verdict': 'bounded check failed',
+                         'solver_output': 'ignore_comments(%r) = %r, reference automaton gives %r' % (b['input'], b['observed'], b['expected']),
+                         'inputs': {'string': b['input']}, 'confirmed': True})
+            break
+    # data-flow obligations on parse_string
+    prog = Program(repo)
+    m = prog.module_by_relpath('asn1tools/parser.py')
+    f = m.functions.get('parse_string')
+    obs = []
+    if f is None:
+        undec.append({'function': 'asn1tools/parser.py::parse_string', 'kind': 'shape', 'reason': 'not found'})
+    else:
+        assigns = [n for n in ast.walk(f.node) if isinstance(n, ast.Assign)]
+        string_assigns = [a for a in assigns if any(isinstance(t, ast.Name) and t.id == 'string' for t in a.targets)]
+        ok1 = len(string_assigns) == 1 and ast.unparse(string_assigns[0].value) == 'ignore_comments(string)'
+        obs.append(('parse_string/text-reaches-prepass-unmodified', ok1,
+                    'the parameter `string` is rewritten other than by string = ignore_comments(string): %s' %
+                    [ast.unparse(a)[:60] for a in string_assigns]))
+        calls = [n for n in ast.walk(f.node) if isinstance(n, ast.Call) and isinstance(n.func, ast.Attribute)
+                 and n.func.attr == 'parseString']
+        ok2 = len(calls) == 1 and len(calls[0].args) >= 1 and isinstance(calls[0].args[0], ast.Name) and calls[0].args[0].id == 'string'
+        obs.append(('parse_string/prepass-result-reaches-grammar-unmodified', ok2, 'grammar.parseString is not applied to the blanked text itself'))
+        ok3 = any(isinstance(n, ast.Attribute) and n.attr == 'lineno' for n in ast.walk(f.node))
+        obs.append(('parse_string/error-reports-lineno', ok3, 'the ParseError message no longer uses the exception lineno'))
+        for name, ok, why in obs:
+            if not ok:
+                viol.append({'obligation': 'asn1tools/parser.py::' + name, 'function': 'asn1tools/parser.py::parse_string',
+                             'verdict': 'data-flow obligation failed', 'solver_output': why, 'inputs': None})
+    return {'name': 'comment pre-pass (bounded) + parse_string data-flow', 'obligations': len(obs),
+            'discharged': sum(1 for o in obs if o[1]), 'violations': viol, 'undecided': undec,
+            'functions': [{'function': 'asn1tools/parser.py::parse_string', 'source_sha256': f.sha if f else None, 'paths': 1,
+                           'obligations': len(obs), 'discharged': sum(1 for o in obs if o[1]), 'outcomes': {}, 'seconds': 0.0,
+                           'inlined_callees': []}],
+            'coverage': {'bounded': {'function': 'asn1tools/parser.py::ignore_comments', 'strings_enumerated': res['total'],
+                                     'strings_with_a_comment_or_change': res['nontrivial'], 'max_length': maxlen,
+                                     'alphabet': alphabet, 'exhaustive_below_bound': True, 'counted_as_proved': False}}}
